@@ -370,6 +370,19 @@ func (g *histGen) genBind(portal, stmt string) pgwire.FMsg {
 		if err != nil {
 			enc = []byte("x")
 		}
+		if pf[i] == 1 && pgwire.KindOf(oidv) != "text" && oidv != pgwire.OIDBytea && oidv != pgwire.OIDBool && r.Chance(1, 10) {
+			// (not for bool: any single byte is a binary boolean of the right
+			// width, and which of them are true is not fixed by the properties)
+			// a parameter announced as binary that carries the text rendering of its
+			// value (or another wrong width): binary is binary, the type's own
+			// decoder has to refuse it
+			if txt, err := pgwire.Encode(oidv, 0, v); err == nil && len(txt) > 0 {
+				enc = txt
+			}
+			if r.Chance(1, 3) {
+				enc = []byte(r.Pick("NaN", "1e5", "42", "t", "true", "2024-02-29", "infinity", "00000000-0000-0000-0000-000000000000", "0"))
+			}
+		}
 		if (oidv == pgwire.OIDText || oidv == pgwire.OIDVarchar || oidv == pgwire.OIDBytea) && pf[i] == 1 && r.Chance(1, 3) {
 			enc = r.Bytes(r.PickInt(0, 1, 9, 200)) // arbitrary bytes incl. NUL
 			if g.o.bigValues && g.m.Limit >= 16384 && r.Chance(1, 3) {
